@@ -449,6 +449,42 @@ theorem findDownstream_spec (f : Tree α → Bool) (t : Tree α) :
   have := downLoop_eq f t (treeDepth t) 0 (by simp [levels])
   simpa [level] using this
 
+/-- **findDownstream_complete** — if any descendant is accepted, the downstream search finds something: `tree_depth()`
+    iterations reach every generation -/
+theorem findDownstream_complete (f : Tree α → Bool) (t : Tree α) (x : Tree α) (hx : x ∈ nodesL t.children) (hf : f x = true) :
+    findDownstream f t ≠ [] := by
+  intro h
+  rw [findDownstream_spec, treeDepth_eq] at h
+  have h1 := firstHit_nil f _ _ h
+  have h2 : x ∈ (levels (heightL t.children) t.children).filter f :=
+    List.mem_filter.2 ⟨(levels_perm_nodes (Nat.le_refl _)).mem_iff.2 hx, hf⟩
+  rw [h1] at h2
+  cases h2
+
+/-- whatever the downstream search returns are accepted descendants, all of the same generation -/
+theorem findDownstream_sound (f : Tree α → Bool) (t : Tree α) :
+    ∃ j, findDownstream f t = (level j t.children).filter f ∧ (levels j t.children).filter f = [] ∨ findDownstream f t = [] := by
+  rw [findDownstream_spec]
+  generalize treeDepth t = k
+  suffices H : ∀ (k e : Nat), (levels e t.children).filter f = [] →
+      ∃ j, firstHit f k (level e t.children) = (level j t.children).filter f ∧ (levels j t.children).filter f = [] ∨
+        firstHit f k (level e t.children) = [] by
+    simpa [level] using H k 0 (by simp [levels])
+  intro k
+  induction k with
+  | zero => intro e _; exact ⟨0, Or.inr rfl⟩
+  | succ k ih =>
+    intro e he
+    simp only [firstHit]
+    by_cases hem : ((level e t.children).filter f).isEmpty
+    · simp only [hem, if_true]
+      rw [← level_succ_right]
+      apply ih (e + 1)
+      rw [levels_succ_right, List.filter_append, he, List.isEmpty_iff.1 hem]
+      rfl
+    · simp only [hem, Bool.false_eq_true, if_false]
+      exact ⟨e, Or.inl ⟨rfl, he⟩⟩
+
 /-- **findAmongParents_spec** — the nearest accepted ancestor -/
 theorem findAmongParents_spec (f : Tree α → Bool) (anc : List (Tree α)) :
     findAmongParents f anc = (anc.find? f).toList := by
